@@ -129,8 +129,9 @@ HandleAdmit(s0, c, i, nw) ==
 (* Maintenance: applying one read record                                     *)
 
 ApplyRead(s, r) ==
-    IF ~r.hit THEN EmitMx(SketchIncrement(s, r.k), [t |-> "read.miss", k |-> r.k])
-    ELSE LET s1 == EmitMx(SketchIncrement(s, r.k), [t |-> "read.hit", k |-> r.k])
+    \* (the hook cannot name the key of a read record: k is reported as -1)
+    IF ~r.hit THEN EmitMx(SketchIncrement(s, r.k), [t |-> "read.miss", k |-> -1])
+    ELSE LET s1 == EmitMx(SketchIncrement(s, r.k), [t |-> "read.hit", k |-> -1])
              s2 == [s1 EXCEPT !.info[r.i].la =
                        IF "F6" \in Dev THEN r.ts ELSE Max(@, r.ts)]
          IN IF s2.info[r.i].adm THEN MoveBackAo(s2, r.i) ELSE s2
@@ -270,7 +271,7 @@ HandleUpsert(s0, c0, r) ==
                    <<c[1], SatSub(c[2], s.info[i].w) + r.nw>>>>
        ELSE IF "F5" \notin Dev /\ ~(s.map[r.k].p /\ s.map[r.k].i = i)
        THEN \* the entry left the map before it was admitted: nothing to do
-            <<EmitMx(s, [t |-> "upsert.stale", k |-> r.k]), c>>
+            <<s, c>>
        ELSE IF FitsC(s, c, r.nw)
        THEN HandleAdmit(EmitMx(s, [t |-> "upsert.fit", k |-> r.k]), c, i, r.nw)
        ELSE IF r.nw > s.cfg.cap
